@@ -222,6 +222,9 @@ func solveAllF(results []*FuncResult, limits func(o *Oblig) (int, int), par int)
 	var jobs []job
 	for _, r := range results {
 		for _, o := range r.Obls {
+			if o.Res != nil {
+				continue // decided without a solver (ground data invariants)
+			}
 			jobs = append(jobs, job{r.Engine, o})
 		}
 	}
